@@ -961,6 +961,45 @@ fn programs(which: Which, tier: Tier) -> Vec<String> {
         ] {
             progs.push(s.to_string());
         }
+        // exhaustive small recursion space: one calibration for X and at most one for Y (thorough: and Z),
+        // each with a fixed or variable head qubit and a body of 1-2 gates over {X, Y, (Z,) H} on the formal /
+        // qubit 0 / qubit 1, x three invocations.  Which of these recurse is decided by the reference expander.
+        let names: &[&str] = if tier == Tier::Quick { &["X", "Y"] } else { &["X", "Y", "Z"] };
+        let defs_of = |name: &str, two: bool| -> Vec<String> {
+            let mut out = vec![];
+            for (head, qs) in [("0", vec!["0", "1"]), ("q", vec!["q", "0", "1"])] {
+                let mut items: Vec<String> = vec![];
+                for n in names {
+                    for q in &qs {
+                        items.push(format!("{n} {q}"));
+                    }
+                }
+                items.push(format!("H {}", qs[0]));
+                for a in &items {
+                    out.push(format!("DEFCAL {name} {head}:\n    {a}\n"));
+                    if two {
+                        for b in &items {
+                            out.push(format!("DEFCAL {name} {head}:\n    {a}\n    {b}\n"));
+                        }
+                    }
+                }
+            }
+            out
+        };
+        let dx = defs_of("X", true);
+        let mut dy = defs_of("Y", tier == Tier::Thorough);
+        dy.push(String::new());
+        let mut dz = if tier == Tier::Quick { vec![] } else { defs_of("Z", false) };
+        dz.push(String::new());
+        for x in &dx {
+            for y in &dy {
+                for z in &dz {
+                    for inv in ["X 0", "X 1", "H 0\nY 0"] {
+                        progs.push(format!("{x}{y}{z}{inv}\n"));
+                    }
+                }
+            }
+        }
         let ladders: &[usize] = if tier == Tier::Quick { &[10, 100, 1000, 3000] } else { &[10, 100, 200, 400, 1000, 3000, 10000] };
         for d in ladders {
             let mut s = String::new();
@@ -1046,7 +1085,7 @@ pub static C18: PropDef = PropDef {
     id: "C18",
     level: "exploration",
     engine: "child",
-    rule: "the C17 program space plus self- / mutually-recursive calibrations (9), parameter-growing calibrations (4) and a depth ladder of finite chains of 10 / 100 / 1000 (thorough .. 10000) one-line calibrations; each program is expanded on a 2 MiB-stack thread inside a worker process: a stack overflow / abort kills the worker and is attributed to the case, no progress for 15 s is a hang. Oracle: finite (reference expander with fuel) => Ok; instruction re-entered or unbounded growth => RecursiveCalibration error; never a crash or hang. non-trivial = program with a calibration",
+    rule: "the C17 program space plus self- / mutually-recursive calibrations (9), parameter-growing calibrations (4), an exhaustive recursion space (one calibration for X and at most one for Y, thorough also Z, each with a fixed or variable head qubit and every body of 1-2 gates (quick: Y bodies of 1) over those names and H on the formal / qubit 0 / qubit 1, x 3 invocations) and a depth ladder of finite chains of 10 / 100 / 1000 (thorough .. 10000) one-line calibrations; each program is expanded on a 2 MiB-stack thread inside a worker process: a stack overflow / abort kills the worker and is attributed to the case, no progress for 15 s is a hang. Oracle: finite (reference expander with fuel) => Ok; instruction re-entered or unbounded growth => RecursiveCalibration error; never a crash or hang. non-trivial = program with a calibration",
     assumptions: ASSUME,
     run: |ctx| cal_run(ctx, "C18", Which::C18),
     replay: |c| cal_replay("C18", Which::C18, c),
